@@ -14,7 +14,8 @@ SEEDED = os.path.join(HERE, "seeded")
 def one(sid: str) -> tuple[str, bool, str]:
     if sid.startswith("/"):  # a not-yet-kept seed in an agent's worktree: /tmp/wt_Cxx/_seed/k
         d = sid
-        prop = sid.split("/wt_")[1][:3]
+        import re as _re
+        prop = _re.search(r"/(?:wt|r2)_(C\d\d)/", sid).group(1)
     else:
         d = os.path.join(SEEDED, sid)
         prop = json.load(open(os.path.join(d, "meta.json")))["property"]
@@ -40,8 +41,9 @@ def main() -> int:
     if "--pending" in sys.argv:
         import glob
         kept = set(ids)
-        for d in sorted(glob.glob("/tmp/wt_C*/_seed/[0-9]*")):
-            k = d.split("/wt_")[1][:3] + "-" + os.path.basename(d)
+        import re as _re
+        for d in sorted(glob.glob("/tmp/wt_C*/_seed/[0-9]*")) + sorted(glob.glob("/tmp/r2_C*/_seed/[0-9]*")):
+            k = _re.search(r"_(C\d\d)/", d).group(1) + ("-r2-" if "/r2_" in d else "-") + os.path.basename(d)
             if os.path.isfile(os.path.join(d, "patch.diff")) and k not in kept and (not sel or any(s in k for s in sel)):
                 ids.append(d)
     bad = 0
